@@ -102,13 +102,14 @@ class Stats:
                 'extra': self.extra}
 
 
-def write_replay(check_id, case, violations):
+def write_replay(check_id, case, violations, hashseed=None):
     os.makedirs(REPLAYS, exist_ok=True)
     path = os.path.join(REPLAYS, f'{check_id}-{S.digest(case, 12)}.json')
     with open(path, 'w') as f:
         json.dump({'property': check_id, 'case': case,
                    'violations': [[s, str(d)[:2000]] for s, d in violations],
-                   'hashseed': os.environ.get('PYTHONHASHSEED')}, f, indent=1, default=repr)
+                   'hashseed': hashseed if hashseed is not None else os.environ.get('PYTHONHASHSEED')},
+                  f, indent=1, default=repr)
     return path
 
 
@@ -234,7 +235,7 @@ def run_shard(check, tier, seed, n_examples, out_path=None):
             raise
     if out_path:
         with open(out_path, 'w') as f:
-            json.dump({'stats': stats.to_json(),
+            json.dump({'stats': stats.to_json(), 'hashseed': os.environ.get('PYTHONHASHSEED'),
                        'failing': None if failing is None else {'case': failing[0], 'violations': [
                            [s, str(d)[:2000]] for s, d in failing[1]]}}, f, default=repr)
     return stats, failing
@@ -298,6 +299,7 @@ def run_check(check, tier, seed, shard=None, out=None):
     for line in notes:
         print(line, flush=True)
     failing = None
+    failing_hashseed = None
     if tier == 'quick':
         stats, failing = run_shard(check, tier, seed, check.quick_examples)
     else:
@@ -307,7 +309,9 @@ def run_check(check, tier, seed, shard=None, out=None):
             outp = os.path.join(tmp, f'shard{i}.json')
             cmd = [sys.executable, '-m', 'verifkit', 'check', check.id, '--tier', 'thorough',
                    '--shard', str(i), '--out', outp]
-            env = dict(os.environ, VERIF_SEED=str(seed))
+            # the engine iterates over sets of node-id strings: the hash seed is one more exploration dimension
+            # (shard i runs with PYTHONHASHSEED=i; a replay file records it and `replay` restores it)
+            env = dict(os.environ, VERIF_SEED=str(seed), PYTHONHASHSEED=str(i))
             procs.append((subprocess.Popen(cmd, cwd=VERIF, env=env), outp))
         parts = []
         harness_fail = False
@@ -321,6 +325,7 @@ def run_check(check, tier, seed, shard=None, out=None):
             parts.append(d['stats'])
             if d['failing'] and failing is None:
                 failing = (d['failing']['case'], [tuple(x) for x in d['failing']['violations']])
+                failing_hashseed = d.get('hashseed')
         import shutil
         shutil.rmtree(tmp, ignore_errors=True)
         if harness_fail:
@@ -329,7 +334,7 @@ def run_check(check, tier, seed, shard=None, out=None):
         stats = merge_stats(parts)
     wall = time.time() - t0
     if failing is not None:
-        path = write_replay(check.id, failing[0], failing[1])
+        path = write_replay(check.id, failing[0], failing[1], failing_hashseed)
         write_evidence(check, tier, seed, stats, wall, 1, notes)
         for s, d in failing[1][:5]:
             print(f'  {s}: {str(d)[:400]}')
@@ -371,8 +376,16 @@ def main(argv, checks):
     r = sub.add_parser('replay')
     r.add_argument('path')
     args = ap.parse_args(argv)
-    if os.environ.get('PYTHONHASHSEED') is None:
-        env = dict(os.environ, PYTHONHASHSEED='0')
+    want = '0'
+    if args.cmd == 'replay':
+        try:
+            with open(args.path) as f:
+                want = str(json.load(f).get('hashseed') or '0')
+        except (OSError, ValueError):
+            want = '0'
+    cur = os.environ.get('PYTHONHASHSEED')
+    if cur is None or (args.cmd == 'replay' and cur != want):
+        env = dict(os.environ, PYTHONHASHSEED=want)
         os.execve(sys.executable, [sys.executable, '-m', 'verifkit'] + list(argv), env)
     seed = int(os.environ.get('VERIF_SEED', '1') or 1)
     try:
